@@ -35,9 +35,26 @@ def budget(tier):
             "soft_seconds": 300 if tier == "quick" else 3000}
 
 
+@st.composite
+def _large(draw):
+    """8-12 literal conditionals over 4-5 atoms (more conditionals than single-digit indices)"""
+    n = draw(st.integers(4, 5))
+    seed = draw(st.integers(0, 2**32))
+    rnd = gen.rng(seed)
+    for _ in range(50):
+        atoms, conds = gen.r_literal_base(rnd, n, rnd.randint(10, 14), max_ant=2)
+        conds = gen.repair_strong(atoms, conds)
+        if len(conds) >= 9:
+            break
+    qs = [gen.r_query(rnd, atoms) for _ in range(2)]
+    return gen.mk_case(atoms, conds, qs, large=True)
+
+
 def strategy(tier):
     return st.one_of(gen.strong_case(1, 4, 5, unfals=True, qlo=2, qhi=4, consts=True),
-                     gen.strong_case(1, 4, 5, unfals=False, qlo=2, qhi=4, consts=False))
+                     gen.strong_case(1, 4, 5, unfals=False, qlo=2, qhi=4, consts=False),
+                     gen.strong_case(1, 4, 5, unfals=False, qlo=2, qhi=4, consts=False),
+                     _large())
 
 
 def run_case(case, ctx):
@@ -61,6 +78,8 @@ def run_case(case, ctx):
         ctx.stratum("unfalsifiable-conditional")
     if m == 1:
         ctx.stratum("single-conditional")
+    if m >= 10:
+        ctx.stratum("ten-or-more-conditionals")
     bb = bridge.mk_bb(atoms, base)
     ctx.ev(1)
     try:
@@ -130,6 +149,9 @@ def run_case(case, ctx):
                         except BaseException as e:  # noqa: BLE001
                             out.append(obs(f"accept|{bridge.exc_symptom(e)}", dict(info, message=str(e)[:200])))
     # ---- Pareto front -----------------------------------------------------------------------
+    if m > 5:
+        ctx.stratum("front:skipped-large-base")
+        return out
     ctx.ev(1)
     try:
         front = c_inference_pareto_front(bb, max_solutions=K0)
@@ -165,5 +187,5 @@ def shrink(case):
 
 
 def required_strata(tier):
-    return ["unfalsifiable-conditional", "single-conditional", "max-impact=1", "max-impact=2", "front-size=1",
+    return ["ten-or-more-conditionals", "unfalsifiable-conditional", "single-conditional", "max-impact=1", "max-impact=2", "front-size=1",
             "front-size=2", "query:c-inferred"]
